@@ -7,6 +7,6 @@ struct Wrapped<T, M> { items: std::vec::IntoIter<T>, _m: M }
 impl<T, M> Iterator for Wrapped<T, M> { type Item = T; fn next(&mut self) -> Option<T> { self.items.next() } }
 fn main() {
     let col: Vec<std::rc::Rc<u64>> = vec![std::rc::Rc::new(7u64), std::rc::Rc::new(7u64), std::rc::Rc::new(7u64)];
-    let it = col.into_con_iter();
+    let it = col.as_slice().into_con_iter().cloned();
     std::thread::scope(|s| { s.spawn(|| { let _ = it.next(); }); });
 }
